@@ -172,8 +172,10 @@ class ModelRegistry:
 
         replaces = []
         replaces_ids = set()
+        # Models are hashed by index string so set order depends on PYTHONHASHSEED: merge in registration order
+        positions = {model: i for i, model in enumerate(self.models)}
         for group in groups:
-            model_meta = self._merge(generator, *group)
+            model_meta = self._merge(generator, *sorted(group, key=positions.__getitem__))
             generator.optimize_type(model_meta)
             replaces_ids.add(model_meta.index)
             replaces.append((model_meta, group))
